@@ -137,6 +137,15 @@ func stable(src string, doc bool) bool {
 	}
 	a, err1 := parse(src, doc)
 	b, err2 := parse(sb.String(), doc)
+	// (the trusted renderer writes an empty doctype identifier like a missing one; that is its
+	// own shortcut, not instability of the tree: doctype identifiers are left out here)
+	for _, l := range [][]*hx.N{a, b} {
+		for _, n := range l {
+			if n.Doctype {
+				n.Attrs = nil
+			}
+		}
+	}
 	return err1 == nil && err2 == nil && hx.Diff(a, b, hx.Options{}) == ""
 }
 
@@ -464,7 +473,12 @@ func (g *gctx) block(depth int) string {
 					case 3:
 						sb.WriteString("<code>" + g.pick("precode", "x\n  y", "<b>z</b> w", " ") + "</code>")
 					case 4:
-						sb.WriteString("<b>" + g.pick("preb", "d", " d ", "") + "</b><i>e</i>")
+						if rapid.Bool().Draw(g.t, "pretanest") {
+							// a <textarea> nested in the <pre>: its own first newline matters too
+							sb.WriteString("<textarea>" + g.pick("pretalead", "", "\n", "\n\n") + g.pick("pretatxt", "t", "a  b\n c", "") + "</textarea>")
+						} else {
+							sb.WriteString("<b>" + g.pick("preb", "d", " d ", "") + "</b><i>e</i>")
+						}
 					default:
 						if name, ok := g.hole(); ok {
 							g.holes.Data[name] = vals.Str(g.pick("prehv", "v1", "\nline", "two\n  lines", " <x> ", "a&b"))
@@ -521,7 +535,11 @@ func genCase(withHoles bool) func(t *rapid.T) Case {
 				`<!DOCTYPE html PUBLIC "-//W3C//DTD XHTML 1.0 Strict//EN" "http://www.w3.org/TR/xhtml1/DTD/xhtml1-strict.dtd">`,
 				`<!DOCTYPE HTML PUBLIC "-//W3C//DTD HTML 4.01 Transitional//EN">`,
 				`<!DOCTYPE html SYSTEM "about:legacy-compat">`,
-				`<!DOCTYPE html PUBLIC "-//W3C//DTD HTML 4.01//EN" "http://www.w3.org/TR/html4/strict.dtd">`}).Draw(t, "doctype")
+				`<!DOCTYPE html PUBLIC "-//W3C//DTD HTML 4.01//EN" "http://www.w3.org/TR/html4/strict.dtd">`,
+				// identifiers written as empty strings are recorded (differently from missing ones)
+				`<!DOCTYPE html PUBLIC "-//W3C//DTD HTML 4.01 Transitional//EN" "">`,
+				`<!DOCTYPE html PUBLIC "" "http://www.w3.org/TR/html4/loose.dtd">`,
+				`<!DOCTYPE html SYSTEM "">`, `<!DOCTYPE html PUBLIC "">`}).Draw(t, "doctype")
 			head := "<head><title>" + g.escText(g.decoded("title"), false) + "</title>" + rapid.SampledFrom([]string{"", `<meta charset="utf-8">`, `<link rel="stylesheet" href="/a.css?x=1&amp;y=2">`, `<meta name="d" content="a &amp; b">`}).Draw(t, "headx") + "</head>"
 			// what follows the closing tag: nothing, a line break, a long banner comment, many
 			// blank lines (the document / fragment decision must not depend on it)
@@ -600,6 +618,9 @@ var corpus = []Case{
 	{Source: `<a href="/q?a=1&amp;b=2&amp;copy=3">x</a>`, Entry: "string"},
 	{Source: `<p xml:lang="en" hx-on:click="go()" data-x:y="1" x.y="z" aria-label="a &amp; b">x</p><svg viewBox="0 0 1 1"><use xlink:href="#i"></use></svg>`, Entry: "string"},
 	{Source: "<pre>a <span>b</span> c\n  <b>d</b><i>e</i>\nf</pre><div><pre><code>x\n  y</code> <em><strong>q</strong>r</em>s</pre></div>", Entry: "string"},
+	{Source: "<pre>Edit:\n<textarea>\n\nline</textarea> <b>x</b></pre>", Entry: "string"},
+	{Source: `<!DOCTYPE html PUBLIC "-//W3C//DTD HTML 4.01 Transitional//EN" ""><html><head><title>t</title></head><body><p>x</p></body></html>`, Doc: true, Entry: "load"},
+	{Source: `<!DOCTYPE html SYSTEM ""><html><head><title>t</title></head><body><p>x</p></body></html>`, Doc: true, Entry: "file"},
 	{Source: "<pre>\n\nblank first</pre><textarea name=\"t\">\n\nblank first</textarea><pre>{{ h1 }}</pre>", Entry: "string", Data: map[string]vals.V{"h1": vals.Str("\nline")}},
 	{Source: `<noscript><img src="x.png" alt=""><p>enable &amp; reload</p></noscript><xmp><b>bold</b> &amp; x</xmp><iframe src="/f"><p>fallback</p></iframe>`, Entry: "string"},
 	{Source: `<input placeholder="line one&#13;&#10;line &quot;two&quot;" title="a&#9;b"><p title="v: {{ h1 }}">x</p>`, Entry: "string", Data: map[string]vals.V{"h1": vals.Str("one\r\ntwo")}},
